@@ -75,6 +75,9 @@ pub fn spaces(tier: Tier) -> Vec<Space<'static>> {
     let d2 = univ::d2();
     let p1 = pool.clone();
     sp.push(Space::new("d2-derived-args", d2.len() as u64, move |i, acc| check_doc(&d2[i as usize], &Opts { extremes: false, pool: p1.clone(), sets: false }, acc)));
+    let ko = refmodel::gen::keyorder_docs();
+    let p4 = pool.clone();
+    sp.push(Space::new("key-order objects (byte order != length order != case order)", ko.len() as u64, move |i, acc| check_doc(&ko[i as usize], &Opts { extremes: false, pool: p4.clone(), sets: false }, acc)));
     let d1q = univ::d1q();
     let p2 = pool.clone();
     sp.push(Space::new("d1q-derived-args", d1q.len() as u64, move |i, acc| check_doc(&d1q[i as usize], &Opts { extremes: false, pool: p2.clone(), sets: false }, acc)));
